@@ -1,8 +1,10 @@
 import CnbVerif.Base.TomlWire
 import CnbVerif.Gen.Schemas
 import CnbVerif.Spec.CnbSchemas
-/-! Driver glue for C08: fields = [libcnb type name, TOML document as a value tree]; the observation is what
-`toml::from_str::<T>` did with the document: `reject` or `ok <decoded value>`. -/
+/-! Driver glue for C08: fields = [libcnb type name, TOML document as a value tree] or the same followed by the TOML text
+(hex) in which the harness handed that tree to the real parser (a layout of the document: the harness checks that the
+text denotes the tree, model and specification work on the tree); the observation is what `toml::from_str::<T>` and
+`read_toml_file::<T>` did with the document: `reject` or `ok <decoded value>`. -/
 namespace CnbVerif.DriverC08
 open CnbVerif CnbVerif.Codec
 
@@ -15,8 +17,54 @@ def errName : Err → String
   | .wrongKind => "wrong-kind" | .unknownKey => "unknown-key" | .missing => "missing-key"
   | .invalid => "invalid-value" | .noVariant => "no-variant"
 
-def handle (fields : List String) (obs : String) : String × String :=
+/-! ### the recorded deviation C08-F5: a datetime where the free-form `metadata` table is expected
+
+The toml crate hands a datetime to serde as the one-key map `{ "$__toml_private_datetime" = "<text>" }`, which
+`toml::Table` reads. `datetimeAsTable sp t` is the document `t` with every datetime that sits **at a position where
+the specification's schema `sp` expects the free-form table** (the `.table` positions: `metadata` of buildpack.toml,
+of a plan entry, of `<layer>.toml`, of store.toml) replaced by that one-key table; datetimes anywhere else - scalar
+positions, struct positions, inside free-form values - are left alone. The walk follows the specification's schema
+only (never the code's). `fuel` bounds the schema depth (the CNB schemas are 5 levels deep). -/
+
+def privateDatetimeKey : String := "$__toml_private_datetime"
+
+def datetimeAsTableAux : Nat → Schema → TV → TV
+  | 0, _, t => t
+  | _ + 1, .table, .dt r => .tbl [(privateDatetimeKey, .str r)]
+  | fuel + 1, .vec s, .arr xs => .arr (xs.map (datetimeAsTableAux fuel s))
+  | fuel + 1, .map _ s, .tbl kvs => .tbl (kvs.map (fun kv => (kv.1, datetimeAsTableAux fuel s kv.2)))
+  | fuel + 1, .struct _ fs, .tbl kvs =>
+    .tbl (kvs.map (fun kv => match fs.find? (fun f => f.key == kv.1) with
+      | some f => (kv.1, datetimeAsTableAux fuel f.schema kv.2)
+      | none => kv))
+  | fuel + 1, .untagged vs, t =>
+    -- the variant under which the repaired document reads; the document itself when there is none
+    match (vs.map (fun v => datetimeAsTableAux fuel v t)).find? (fun t' => (decode (.untagged vs) t').toBool) with
+    | some t' => t'
+    | none => t
+  | _ + 1, _, t => t
+
+def datetimeAsTable (sp : Schema) (t : TV) : TV := datetimeAsTableAux 32 sp t
+
+/-- exactly the recorded deviation and nothing else: the specification rejects the document, at least one datetime sits
+where the free-form table is expected, with those (and only those) read as the one-key table the document is
+conforming, and the implementation's result is precisely what the specification's reader yields for that document -/
+def isDatetimeAsTable (sp : Schema) (t : TV) (obs : String) : Bool :=
+  let t' := datetimeAsTable sp t
+  t'.render != t.render &&
+  (match decode sp t with | .ok _ => false | .error _ => true) &&
+  (match decode sp t' with | .ok v => obs == "ok " ++ v.render | .error _ => false)
+
+/-- the optional third field: lowercase hex of the text -/
+def layoutOk (fields : List String) : Bool :=
   match fields with
+  | [_, _] => true
+  | [_, _, text] => text.length % 2 == 0 && text.all (fun c => c.isDigit || ('a' ≤ c && c ≤ 'f'))
+  | _ => false
+
+def handle (fields : List String) (obs : String) : String × String :=
+  if !layoutOk fields then ("bad-op", "bad-op") else
+  match fields.take 2 with
   | [name, tree] =>
     match parseTree tree, Gen.readable.lookup name, Spec.Cnb.doc name with
     | some t, some g, some sp =>
@@ -30,6 +78,9 @@ def handle (fields : List String) (obs : String) : String × String :=
           -- fully explained by the known leniency: the document has such a site and the observation is what the model of serde's reader predicts
           if !(lenientFree sp t) ∧ obs = model then
             "fail:wrong-kind-accepted:serde-leniency (an array read as a table, or a single-key table read as an enum string)"
+          -- fully explained by the known datetime encoding: only datetimes at free-form-table positions stand between the
+          -- document and conformance, and they came back as the one-key table
+          else if isDatetimeAsTable sp t obs then "fail:wrong-kind-accepted:datetime-as-table"
           else "fail:a document the specification does not allow was accepted"
         else if obs = "reject" then
           "fail:conforming-document-rejected:" ++ name ++ ":" ++
